@@ -60,12 +60,27 @@ func VerifCheck_conc() {
 
 // ---------------------------------------------------------------- C14: timeouts
 
+var verifClockREs = map[time.Duration]*Regexp{}
+
+// verifClockRE: one Regexp per timeout value for the whole history (its pooled runner carries state from
+// event to event), a pattern that is catastrophic on a run of a's without a b
+func verifClockRE(d time.Duration) *Regexp {
+	if re, ok := verifClockREs[d]; ok {
+		return re
+	}
+	re := MustCompile(`(a+)+b`)
+	re.MatchTimeout = d
+	verifClockREs[d] = re
+	return re
+}
+
 func VerifCheck_clock() {
 	period := time.Duration(verifParamInt("period_ns"))
 	jit := int64(verifParamInt("jitter_ns"))
 	tick := int64(1 << 20)
 	hist := verifSplitComma(verifParam("history"))
 	pre := verifParamInt("preempt")
+	verifClockREs = map[time.Duration]*Regexp{}
 	verifConcurrent(0, false, func() {
 		clockPeriod = period
 		d := time.Duration(verifIntSet("d", verifParam("ddom")))
@@ -103,6 +118,42 @@ func VerifCheck_clock() {
 					// it does fire
 					verifAssert("timeout-fires", el < int64(d)+3*p+2*jit+2*tick)
 				}
+			case "match", "match-after-gap":
+				// a real timed match that cannot finish in time: every deadline poll of the matcher costs
+				// poll_cost_ns of virtual time (the interpreter lets it pass before (*Runner).CheckTimeout runs)
+				re := verifClockRE(d)
+				t0 := verifNow()
+				_, err := re.MatchString("aaaaaaaaaaaab"[:12])
+				el := verifNow() - t0
+				verifNoteInts("match-elapsed", []int{int(el)})
+				verifAssert("long-match-times-out", err != nil)
+				verifAssert("no-early-timeout/match", el >= int64(d)-(p+jit+2*tick))
+				verifAssert("timeout-fires/match", el < int64(d)+3*p+2*jit+2*tick+int64(verifParamInt("poll_cost_ns")))
+				verifReach("real-match-timed-out")
+			case "quickmatch":
+				// a match that finishes at once never reports a timeout
+				re := verifClockRE(d)
+				ok, err := re.MatchString("aab")
+				if err != nil {
+					verifNote(err.Error())
+				}
+				verifAssert("no-false-timeout/quickmatch", err == nil && ok)
+			case "iterate-slow":
+				// the caller takes longer than the timeout between two matches of an iteration: every step
+				// of the iteration has its own deadline
+				re := verifClockRE(d)
+				m, err := re.FindStringMatch("ab ab ab")
+				if err != nil {
+					verifNote(err.Error())
+				}
+				verifAssert("iterate/first", err == nil && m != nil)
+				time.Sleep(2*d + 3*period)
+				m2, err := re.FindNextMatch(m)
+				verifAssert("iterate/next-after-slow-caller", err == nil && m2 != nil && m2.RuneIndex == 3)
+				all, err := re.FindAllStringIndex("ab ab ab", -1)
+				verifAssert("iterate/findall", err == nil && len(all) == 3)
+			case "idle-most":
+				time.Sleep(d - d/10)
 			case "conc2":
 				// two timed matches with different timeouts start at the same moment in two goroutines
 				d2 := d + 1500*time.Millisecond
